@@ -35,5 +35,5 @@ PROPS["C07"] = dict(
                  "TIMELIMIT 20 s is set as a safety net only (never binding at these sizes); solver statuses are counted, not judged"],
     min_nontrivial=dict(quick=40000, thorough=200000),
     stages=[dict(name="main", target="c07", flavour="plain",
-                 quick=dict(cases=8000, maxsize=100), thorough=dict(cases=40000, maxsize=100))],
+                 quick=dict(cases=20000, maxsize=100), thorough=dict(cases=60000, maxsize=100))],
 )
